@@ -4,8 +4,8 @@ package actionlint
 
 // C15 — ignore patterns are an exact filter; results do not depend on the cwd.
 //
-// Complete product: 3 workflows (0 / 2 / 4 diagnostics with distinct messages) x 12 CLI -ignore
-// sets x 4 `paths` globs x 4 config pattern sets x cwd in {root, parent, nested, unrelated} x path
+// Complete product: 5 workflows (0 / 2 / 4 diagnostics, not YAML, ties at one position) x 17 CLI -ignore
+// sets x 4 `paths` globs x 5 config pattern sets x cwd in {root, parent, nested, unrelated} x path
 // spelling in {relative, ./relative, absolute}, each through Command.Main. Oracle: reference
 // filter (set difference in unchanged order; a paths entry applies iff its glob matches the path
 // relative to the repository root - match bits are part of the scenario table); exit status.
@@ -41,6 +41,8 @@ var c15CLISets = [][]string{
 	// not reach the next
 	{"(?i)SHELL NAME", "UNDEFINED VARIABLE"}, {"\\Qshell name", "undefined variable"}, {"(?U)shell.*name", "undefined.*variable$"}, {"^shell name|zzz", "variable"},
 	{"unexpected key"}, {"should not be empty"},
+	// a literal anchored at both ends matches a whole message only, not a message that contains it
+	{"^undefined variable$"}, {"\\Ashell name\\z", "^(?:bogusinput)$", "^(?s:is unknown)$"},
 }
 
 type c15Glob struct {
@@ -55,7 +57,7 @@ var c15Globs = []c15Glob{
 	{".github/workflows/w4.yml", map[string]bool{"w4.yml": true}},
 }
 
-var c15CfgSets = [][]string{nil, {"undefined variable"}, {"shell name", "is not defined in action"}, {".*"}}
+var c15CfgSets = [][]string{nil, {"undefined variable"}, {"shell name", "is not defined in action"}, {".*"}, {"^undefined variable$", "^shell name$"}}
 
 type c15Diag struct {
 	line, col int
@@ -113,7 +115,7 @@ const c15OnelineTemplate = "{{range $ := .}}{{$.Filepath}}:{{$.Line}}:{{$.Column
 func TestVerifC15(t *testing.T) {
 	r := vNewReport("C15")
 	defer r.Write(t)
-	r.Extra["rule"] = "5 workflows (one of them not YAML at all, one with diagnostics of different rules at the same position) x 15 -ignore sets x 4 paths globs x 4 config ignore sets given by the repository's actionlint.yaml or by -config-file (repository without its own) x {no further entry, a further matching entry, a further non-matching entry, patterns given as YAML aliases} x 4 working directories x 5 path spellings (relative, ./relative, absolute; piped through stdin with a relative / absolute -stdin-filename) through Command.Main (-oneline -no-color), complete product; oracle: unfiltered list minus diagnostics matched by a CLI pattern or by a config pattern whose glob matches the root-relative path, order preserved, exit 1 iff non-empty; plus every ordered pair / triple of files of 6 different locations (repository, sibling repository, nested repository, no repository, repositories whose .git is a file: alone and nested) x 3 working directories x relative / absolute spelling x {-oneline, equivalent -format template} in one invocation; plus exit-status rows (invalid flag 2; unreadable file, bad config, bad -ignore regexp, bad config regexp, non-string ignore element 3). class = (remaining diagnostics, exit status); non-trivial = something is filtered"
+	r.Extra["rule"] = "5 workflows (one of them not YAML at all, one with diagnostics of different rules at the same position) x 17 -ignore sets x 4 paths globs x 5 config ignore sets given by the repository's actionlint.yaml or by -config-file (repository without its own) x {no further entry, a further matching entry, a further non-matching entry, patterns given as YAML aliases} x 4 working directories x 5 path spellings (relative, ./relative, absolute; piped through stdin with a relative / absolute -stdin-filename) through Command.Main (-oneline -no-color), complete product; oracle: unfiltered list minus diagnostics matched by a CLI pattern or by a config pattern whose glob matches the root-relative path, order preserved, exit 1 iff non-empty; plus every ordered pair / triple of files of 6 different locations (repository, sibling repository, nested repository, no repository, repositories whose .git is a file: alone and nested) x 3 working directories x relative / absolute spelling x {-oneline, equivalent -format template} in one invocation; plus exit-status rows (invalid flag 2; unreadable file, bad config, bad -ignore regexp, bad config regexp, non-string ignore element 3). class = (remaining diagnostics, exit status); non-trivial = something is filtered"
 	r.Extra["assumptions"] = []string{"glob match bits are part of the scenario table (written by hand for 4 globs x 3 files)", "working directory is process-global: cases run sequentially inside each worker process"}
 	orig, _ := os.Getwd()
 	defer os.Chdir(orig)
